@@ -157,7 +157,7 @@ def np_apply(r, leaves):
     if k == 'id':
         return [x.copy() for x in leaves]
     if k == 'hom':
-        return [float(r['value']) * x for x in leaves]
+        return [scalar_float(r['value'], r.get('ty', 'py_float')) * x for x in leaves]
     if k in ('diag', 'bdiag'):
         return [diag_apply(r['vals'], _axis(r['axis']), x, k == 'diag') for x in leaves]
     if k == 'dense':
@@ -186,6 +186,15 @@ def np_apply(r, leaves):
         M = np.asarray(r['matrix'], dtype=np.float64)
         return [M @ x for x in leaves]
     raise ValueError(k)
+
+
+def scalar_float(v, ty) -> float:
+    """The numeric value furax receives for a scalar recipe (integer flavours truncate)."""
+    if ty in ('py_int', 'np_i32'):
+        return float(int(v))
+    if ty == 'py_bool':
+        return float(bool(v))
+    return float(v)
 
 
 def _axis(a):
@@ -375,10 +384,10 @@ def denote(r, defs, memo=None) -> Den:
         if 'fft' in flags:
             # FFT round-off spreads over the whole row of a Toeplitz block
             n = r['in']['shape'][-1]
-            rowmax = A.max(axis=1, initial=0.0)
+            bmax = float(np.abs(np.asarray(r['band'], dtype=float)).sum(axis=-1).max())
             for i in range(A.shape[0]):
                 b = (i // n) * n
-                A[i, b : b + n] = np.maximum(A[i, b : b + n], rowmax[i])
+                A[i, b : b + n] = np.maximum(A[i, b : b + n], bmax)
         return Den(M, A, r['in'], leaf_out(r), flags, 1)
     if k == 'compose':
         ds = [denote(o, defs, memo) for o in r['ops']]
@@ -399,7 +408,7 @@ def denote(r, defs, memo=None) -> Den:
         return Den(M, A, ds[0].in_S, ds[0].out_S, fl, max(d.nf for d in ds) + 1)
     if k == 'scale':
         d = denote(r['op'], defs, memo)
-        v = float(r['value'])
+        v = scalar_float(r['value'], r.get('ty', 'py_float'))
         f = 1.0 / v if r['form'] == 'A/k' else v
         fl = set(d.flags)
         if r.get('ty', 'py_float') in P32_SCALARS:
